@@ -3,7 +3,7 @@ import ParanoidModel.Model.RsaChecks
 namespace Paranoid.Driver
 open Paranoid.Proto
 
-def fmtVerdict (v : Verdict) : String :=
+def fmtVerdict (v : KeyVerdict) : String :=
   fmtBool v.weak ++ " " ++ fmtNatList v.factors ++ " " ++ fmtBool v.sevUnknown
 
 /-- oracle table `d0:matrix|d0:matrix`; `-` for the empty table. -/
